@@ -103,16 +103,18 @@ Definition writer_crc (flushes : list bstr) : N := crc32c_spec 0 (concat flushes
 
 (* rendering for the correspondence with the system-call log: (call, copy index, byte count) *)
 Inductive call : Type := CUnlink | COpenExcl | CWrite | CFsync | CClose | CVerify | CRename.
-Definition render (o : op) : call * nat * nat :=
-  let idx p := match p with Content i => i | Tmp i => i | Other n => n end in
+Definition nidx (p : path) : N := N.of_nat (match p with Content i => i | Tmp i => i | Other n => n end).
+Definition nlen (c : bstr) : N := N.of_nat (length c).
+Definition render (o : op) : call * N * N :=
   match o with
-  | Unlink p => (CUnlink, idx p, O)
-  | CreateExcl p => (COpenExcl, idx p, O)
-  | Write p c => (CWrite, idx p, length c)
-  | Fsync p => (CFsync, idx p, O)
-  | Close p => (CClose, idx p, O)
-  | Verify p _ => (CVerify, idx p, O)
-  | Rename s _ => (CRename, idx s, O)
+  | Unlink p => (CUnlink, nidx p, 0)
+  | CreateExcl p => (COpenExcl, nidx p, 0)
+  | Write p c => (CWrite, nidx p, nlen c)
+  | Fsync p => (CFsync, nidx p, 0)
+  | Close p => (CClose, nidx p, 0)
+  | Verify p _ => (CVerify, nidx p, 0)
+  | Rename s _ => (CRename, nidx s, 0)
   end.
-Definition save_calls (ncopies : nat) (chunk_sizes : list nat) : list (call * nat * nat) :=
-  map render (save_ops (seq 0 ncopies) (map (fun n => repeat 0 n) chunk_sizes) 0).
+(* the calls of one save with `ncopies` content lines whose flushes have the given sizes (the bytes do not matter) *)
+Definition save_calls (ncopies : N) (chunk_sizes : list N) : list (call * N * N) :=
+  map render (save_ops (seq 0 (N.to_nat ncopies)) (map (fun n => repeat 0 (N.to_nat n)) chunk_sizes) 0).
